@@ -1079,3 +1079,68 @@ func rpFaults(t *testing.T) {
 }
 
 func TestReplay_Collection_Get(t *testing.T) { rpFaults(t) }
+
+// ---- crash at any point (C03) -------------------------------------------------------------------
+
+// every byte-granular prefix of the file between two completed flushes re-opens to exactly the earlier one
+func rpCrash(t *testing.T) {
+	for seed := 1; seed <= 4; seed++ {
+		r := rand.New(rand.NewSource(int64(100 + seed)))
+		f := &rpFile{}
+		s, _ := NewStore(f)
+		type fl struct {
+			end   int
+			state string
+		}
+		hist := []fl{{0, fmt.Sprint(map[string]map[string]string{})}}
+		for k := 0; k < 4; k++ {
+			for j := 0; j <= r.Intn(3); j++ {
+				cn := fmt.Sprintf("c%d", r.Intn(2))
+				if s.GetCollection(cn) == nil {
+					s.SetCollection(cn, nil)
+				}
+				val := fmt.Sprintf("v%d-%d", k, j)
+				if r.Intn(2) == 0 {
+					// an uncommitted value may contain the magic markers and fragments of root records
+					val += "3e4a5p3e4a5p0g1t2r0g1t2r" + string(bytes.Repeat([]byte{0, 0, 0, 4}, 2)) + "3e4a5p3e4a5p"
+				}
+				s.GetCollection(cn).Set([]byte(fmt.Sprintf("k%d", r.Intn(4))), []byte(val))
+			}
+			if k == 2 {
+				s.RemoveCollection("c0")
+			}
+			if err := s.Flush(); err != nil {
+				t.Fatal(err)
+			}
+			hist = append(hist, fl{len(f.b), fmt.Sprint(rpContents(t, s))})
+		}
+		for i := 0; i+1 < len(hist); i++ {
+			for L := hist[i].end; L < hist[i+1].end; L++ {
+				rpCases++
+				re, err := NewStore(&rpFile{b: append([]byte(nil), f.b[:L]...)})
+				if i == 0 && L > 0 {
+					if err == nil {
+						t.Fatalf("seed %d: a %d-byte prefix of the first flush (no flush ever completed) opened without error", seed, L)
+					}
+					continue
+				}
+				if err != nil {
+					t.Fatalf("seed %d: the file cut at byte %d (inside flush #%d, which ends at %d) does not open: %v", seed, L, i+1, hist[i+1].end, err)
+				}
+				if got := fmt.Sprint(rpContents(t, re)); got != hist[i].state {
+					t.Fatalf("seed %d: the file cut at byte %d (inside flush #%d) re-opens to %v, want the state of flush #%d: %v", seed, L, i+1, got, i, hist[i].state)
+				}
+				if L%37 == 0 {
+					// the recovered store accepts further mutations and flushes, durably
+					cc := re.SetCollection("after-crash", nil)
+					cc.Set([]byte("a"), []byte("b"))
+					if err := re.Flush(); err != nil {
+						t.Fatalf("seed %d: Flush after recovering from a cut at %d: %v", seed, L, err)
+					}
+				}
+			}
+		}
+	}
+}
+
+func TestReplay_Store_write(t *testing.T) { rpCrash(t) }
